@@ -241,13 +241,20 @@ pub fn spawn_watchdog(tid: u64, cpu_limit_s: f64) {
 						println!("  what: hang (no progress for {:.1}s CPU) in {}", burned, i.what);
 						std::process::exit(1);
 					} else {
-						eprintln!("watchdog: hang outside of any case");
-						std::process::exit(2);
+						// no case registered: long pure computations (sweeps) are not callbacks
+						cpu_at_last = cpu;
 					}
 				}
 			}
 		})
 		.expect("spawn watchdog");
+}
+
+pub fn clear_current() {
+	if let Ok(mut g) = CURRENT.lock() {
+		*g = None;
+	}
+	bump();
 }
 
 pub fn set_current(ctx: &crate::util::Ctx, stream: &str, case: u64, what: &str, known_hang: bool) {
